@@ -94,7 +94,10 @@ def case(draw, tier):
     # then the child's input is a phantom, i.e. invalid) and leave together with them
     d2 = None
     if draw(st.integers(0, 2)) == 0:
-        d2 = {"lag": draw(st.integers(0, 3)), "skip_mod": draw(st.integers(2, 4))}
+        d2 = {"lag": draw(st.integers(0, 3)), "skip_mod": draw(st.integers(2, 4)),
+              # differing key sets: a key may leave the second dictionary while the first keeps its child alive, and come back
+              "leave_after": draw(st.sampled_from([0, 0, 1, 2, 3])), "readd_after": draw(st.sampled_from([0, 1, 2])),
+              "yy_passive": draw(st.booleans())}
     return {"start": start, "end": end, "F": F, "use_key": use_key, "use_b": use_b, "script": script, "b_script": b_script, "flags": sorted(flags), "d2": d2}
 
 
@@ -148,10 +151,18 @@ def check(case, ctx) -> Result:
                 continue
             t_in = later[d2["lag"]]
             ys = [(t_in, 100 + k)] + [(t, 200 + v) for (t, v) in xs if t > t_in]
+            t_out = t_re = None
+            la, ra = d2.get("leave_after", 0), d2.get("readd_after", 0)
+            if la and len(later) > d2["lag"] + la:
+                t_out = later[d2["lag"] + la]
+                if ra and len(later) > d2["lag"] + la + ra:
+                    t_re = later[d2["lag"] + la + ra]
+                ys = [(t, v) for (t, v) in ys if t < t_out] + [(t_out, None)] + \
+                     ([(t_re, 300 + k)] + [(t, 200 + v) for (t, v) in xs if t > t_re] if t_re is not None else [])
             y_ticks[i] = ys
             for t, v in ys:
-                by_t.setdefault(t, []).append(["set", k, v])
-            if trm is not None:
+                by_t.setdefault(t, []).append(["set", k, v] if v is not None else ["erase", k])
+            if trm is not None and not (t_out is not None and t_re is None):
                 by_t.setdefault(trm, []).append(["erase", k])
         d2_script = [[t, [{"k": "D", "ops": ops}]] for t, ops in sorted(by_t.items())]
     subs = {"F": F}
@@ -160,7 +171,8 @@ def check(case, ctx) -> Result:
         n = len(F["params"])
         subs["F2"] = {"params": F["params"] + ["TS[int]"], "names": F["names"] + ["yy"], "out": "TS[int]", "ret": "comb", "stmts": [
             {"id": "inner", "op": "inline", "sub": "F", "ins": [{"arg": j} for j in range(n)]},
-            {"id": "comb", "op": "node", "ins": ["inner", {"arg": n}], "out": "TS[int]", "fn": "sum", "valid": [0], "coef": [1, 1], "log_inputs": False}]}
+            {"id": "comb", "op": "node", "ins": ["inner", {"arg": n, "passive": True} if d2.get("yy_passive") else {"arg": n}], "out": "TS[int]",
+             "fn": "sum", "valid": [0], "coef": [1, 1], "log_inputs": False}]}
         fname = "F2"
     args = [{"fn": fname}, {"ts": "d"}] + ([{"ts": "bsrc"}] if case["use_b"] else []) + ([{"ts": "d2"}] if d2 else [])
     stmts = [{"id": "d", "op": "src", "schema": "TSD[int,TS[int]]", "script": case["script"]}]
@@ -197,7 +209,9 @@ def check(case, ctx) -> Result:
             solo.append({"id": f"b{i}", "op": "src", "schema": "TS[int]", "script": sc})
             ins.append(f"b{i}")
         if d2:
-            solo.append({"id": f"y{i}", "op": "src", "schema": "TS[int]", "script": [[t, [{"k": "set", "v": v}]] for t, v in y_ticks.get(i, []) if ta <= t < hi]})
+            # the element leaving the second dictionary = the stand-alone argument going invalid
+            solo.append({"id": f"y{i}", "op": "src", "schema": "TS[int]",
+                         "script": [[t, [{"k": "set", "v": v} if v is not None else {"k": "inval"}]] for t, v in y_ticks.get(i, []) if ta <= t < hi]})
             ins.append(f"y{i}")
         solo.append({"id": f"f{i}", "op": "inline", "sub": fname, "ins": ins})
         solo.append({"id": f"r{i}", "op": "node", "ins": [f"f{i}"]})
@@ -289,5 +303,7 @@ def check(case, ctx) -> Result:
         res.labels.append("broadcast")
     if d2:
         res.labels.append("second_multiplexed_dict")
+        if any(v is None for ys in y_ticks.values() for _, v in ys):
+            res.labels.append("key_left_second_dict_only")
     res.summary = {"lifetimes": [(k, ta, trm) for k, ta, trm, _ in lts][:12], "flags": case["flags"]}
     return res
